@@ -171,41 +171,43 @@ Record parsed := mkParsed {
 
 Definition all_ascii (s : text) : bool := forallb is_ascii s.
 
+(* userinfo, sep, hostinfo = au_text.rpartition('@'); user, _, pw = userinfo.partition(':') *)
+Definition split_userinfo (au : text) : text * text * text :=
+  match au with
+  | [] => ([], [], au)
+  | _ => match rpartition 64 au with
+         | Some (userinfo, hi) => let '(u, _, p) := partition 58 userinfo in (u, p, hi)
+         | None => ([], [], au)
+         end
+  end.
+
+(* host, sep, port_str = hostinfo.partition(':'), the IPv6 bracket repair, int(port_str) *)
+Definition split_hostport (hostinfo : text) : mres (text * option Z) :=
+  match hostinfo with
+  | [] => MOk ([], None)
+  | _ =>
+    let '(host, sep, port_str) := partition 58 hostinfo in
+    if (sep : bool) then
+      let '(host, port_str) :=
+        if (match host with h0 :: _ => h0 =? 91 | [] => false end) && memN 93 port_str then
+          let '(host_right, _, ps) := partition 93 port_str in
+          (host ++ [58] ++ host_right ++ [93],
+           match ps with 58 :: r => r | _ => ps end)
+        else (host, port_str) in
+      if all_ascii port_str then
+        match py_int port_str with
+        | Some p => MOk (host, Some p)
+        | None => match port_str with [] => MOk (host, None) | _ => URLParseErr end
+        end
+      else MOut 1                               (* int() of non-ASCII text is not modelled *)
+    else MOk (host, None)
+  end.
+
 Definition parse_url (s : text) : mres parsed :=
   let g := url_re s in
   let au := match g_authority g with Some a => a | None => [] end in
-  let '(user, pw, hostinfo) :=
-    match au with
-    | [] => ([], [], au)
-    | _ => match rpartition 64 au with
-           | Some (userinfo, hi) => let '(u, _, p) := partition 58 userinfo in (u, p, hi)
-           | None => ([], [], au)
-           end
-    end in
-  do hp <-
-    match hostinfo with
-    | [] => MOk ([], None)
-    | _ =>
-      let '(host, sep, port_str) := partition 58 hostinfo in
-      if (sep : bool) then
-        let '(host, port_str) :=
-          match host with
-          | 91 :: _ =>
-            if memN 93 port_str then
-              let '(host_right, _, ps) := partition 93 port_str in
-              (host ++ [58] ++ host_right ++ [93],
-               match ps with 58 :: r => r | _ => ps end)
-            else (host, port_str)
-          | _ => (host, port_str)
-          end in
-        if all_ascii port_str then
-          match py_int port_str with
-          | Some p => MOk (host, Some p)
-          | None => match port_str with [] => MOk (host, None) | _ => URLParseErr end
-          end
-        else MOut 1                               (* int() of non-ASCII text is not modelled *)
-      else MOk (host, None)
-    end;
+  let '(user, pw, hostinfo) := split_userinfo au in
+  do hp <- split_hostport hostinfo;
   let '(host, port) := hp in
   do fh <- parse_host host;
   let '(family, host) := fh in
@@ -233,22 +235,25 @@ Record url := mkU {
 
 Definition opt_text (o : option text) : text := match o with Some t => t | None => [] end.
 
+(* self.host: ASCII host text goes through the idna codec (UnicodeError -> URLParseError) *)
+Definition decode_host (h : text) : mres text :=
+  match h with
+  | [] => MOk []
+  | _ => if all_ascii h
+         then match o_idna_dec O h with
+              | MRaise _ => URLParseErr
+              | r => r
+              end
+         else MOk h
+  end.
+
 (* URL(text) for str text *)
 Definition url_init (s : text) : mres url :=
   match s with
   | [] => MOk (mkU [] false [] [] 0 [] None [[]] [] [])     (* DEFAULT_PARSED_URL *)
   | _ =>
     do p <- parse_url s;
-    do host <-
-      match pu_host p with
-      | [] => MOk []
-      | h => if all_ascii h
-             then match o_idna_dec O h with
-                  | MRaise _ => URLParseErr           (* UnicodeError -> URLParseError *)
-                  | r => r
-                  end
-             else MOk h
-      end;
+    do host <- decode_host (pu_host p);
     MOk (mkU (opt_text (pu_scheme p)) (pu_sep p)
              (unq_if_pct (pu_user p)) (unq_if_pct (pu_pass p))
              (pu_family p) host (pu_port p)
@@ -307,6 +312,14 @@ Definition optZ_eqb (a b : option Z) : bool :=
 (* ---- rendering --------------------------------------------------------------------------------------- *)
 Definition nonempty (s : text) : bool := match s with [] => false | _ => true end.
 
+(* if self.port and self.port != self.default_port: ':' + str(self.port) *)
+Definition port_text (u : url) : text :=
+  match u_port u with
+  | Some p => if negb (Z.eqb p 0) && negb (optZ_eqb (Some p) (default_port u))
+              then 58 :: str_of_Z p else []
+  | None => []
+  end.
+
 (* get_authority(full_quote, with_userinfo=True); userinfo is always fully quoted *)
 Definition get_authority (full : bool) (u : url) : mres text :=
   let userinfo :=
@@ -324,13 +337,7 @@ Definition get_authority (full : bool) (u : url) : mres text :=
                                 | r => r
                                 end
               else MOk h);
-    let port :=
-      match u_port u with
-      | Some p => if negb (Z.eqb p 0) && negb (optZ_eqb (Some p) (default_port u))
-                  then 58 :: str_of_Z p else []
-      | None => []
-      end in
-    MOk (userinfo ++ ht ++ port)
+    MOk (userinfo ++ ht ++ port_text u)
   end.
 
 Definition query_to_text (full : bool) (q : list (text * option text)) : text :=
